@@ -883,6 +883,11 @@ func c10R3DeleteGC(c *Ctx, R3 string, r *c08Roles) {
 }
 
 var c10Mutants = []Mutant{
+	// generic error-discipline rule (errdiscipline.go): a disabled error check
+	{Name: "ed-createtemp-error-swallowed", File: "content/oci/storage.go",
+		Old:    "\tfp, err := os.CreateTemp(s.ingestRoot, expected.Digest.Encoded()+\"_*\")\n\tif err != nil {",
+		New:    "\tfp, err := os.CreateTemp(s.ingestRoot, expected.Digest.Encoded()+\"_*\")\n\tif false && err != nil {",
+		Expect: "C10.ED.error-surfaces"},
 	// coverage review (all keep the repository's tests green)
 	{Name: "push-reports-success-when-rename-finds-target", File: "content/oci/storage.go",
 		Old:    "\t\tif errors.Is(err, os.ErrPermission) {\n",
